@@ -15,20 +15,20 @@ TEXT = {
             "Conservation law strong + occupied debt slots == containers + owned handles + live guards checked for every object at quiescent points (all threads parked by the harness, guards still held), all slots empty / control idle / no writers after the join, no leak, no double destruction; LeakSanitizer as an independent coarser witness.",
             "quiescent-point invariant monitor (conservation law over ledger + node-list hook) + LeakSanitizer, Miri, valgrind memcheck"),
     "C03": ("exploration", "5 C03",
-            "Boundary-recorded operation histories (unique value ids, SeqCst stamps) of every execution are checked for linearizability against a sequential pointer-cell model, per container, by an exact frontier search (budget exhaustion = inconclusive).",
-            "offline linearizability checking of recorded histories (token-scheduled, free-running, under Miri)"),
+            "Boundary-recorded operation histories (unique value ids, SeqCst stamps) of every execution are checked for linearizability against a sequential pointer-cell model, per container, by an exact frontier search (budget exhaustion = inconclusive). Store-buffering litmus rounds under Miri's weak-memory emulation (flag and two-container shapes, every write operation x read flavour x strategy) decide 'a load started after a completed store sees it' where the stamps themselves would supply the ordering.",
+            "offline linearizability checking of recorded histories (token-scheduled, free-running, under Miri) + store-buffering litmus monitor under Miri"),
     "C04": ("exploration", "5 C04",
             "Chain oracle over write histories (each value handed back at most once, unique successor) plus the linearizability check with final value and the ledger's conservation / leak check for overwritten values.",
-            "history monitor: chain + conservation oracle"),
+            "history monitor: chain + conservation oracle (+ Miri litmus / race detection for the publishing exchange)"),
     "C05": ("exploration", "5 C05",
             "compare_and_swap recorded with expected address / returned address / new id; linearizability under the rule 'replaces iff stored address == expected, returns the stored value either way', small value pools, stale raw addresses and address reuse (A-B-A), all `current` forms the strategy supports; counts through the ledger.",
-            "offline linearizability checking with compare-and-swap semantics + ledger"),
+            "offline linearizability checking with compare-and-swap semantics + ledger + store-buffering litmus monitor under Miri"),
     "C06": ("exploration", "5 C06",
             "rcu recorded as its initial load plus one compare-and-swap per closure invocation; linearizability of the whole history, rcu return value == last closure input, products of discarded attempts never observed by any load and destroyed by quiescence; re-entrant closures.",
-            "history monitor with rcu sub-events + ledger"),
+            "history monitor with rcu sub-events + ledger + store-buffering litmus monitor under Miri"),
     "C10": ("exploration", "5 C10",
             "Identity seen through every guard at creation, at random later moments, after moving to another thread and at drop; guards outlive containers (last holder drops / into_inner) and race with writers; ledger rules and conservation law; ASan for real frees.",
-            "guard identity monitor + ledger + AddressSanitizer"),
+            "guard identity monitor + ledger + AddressSanitizer + Miri (hb-silent node hand-over scenario)"),
     "C12": ("exploration", "5 C12",
             "Per-container linearizability with provenance (a value returned by container A must have been stored in A), several containers sharing threads and values stored in several containers, writers of one container walking nodes of readers of another (help.other_storage path required).",
             "per-container history checking with provenance + kind-tag monitor on two pointee kinds"),
@@ -60,20 +60,20 @@ TEXT.update({
 
 TEXT.update({
     "C13": ("fault_enumeration", "5 C13",
-            "The wrap-around of the slow-path transaction counter is forced at each of 17 positions (preset through a hook) in three situations and on both ways onto the slow path; every API call of every workload runs under a panic hook that attributes panics located in the crate to C13; hangs are decided by the watchdog; after the wrap 20-60 more operations per thread run and all core oracles (ledger, conservation law, histories, node invariants) must hold. TOKEN-scheduled, free-running, under ASan and (small presets) under Miri.",
+            "The wrap-around of the slow-path transaction counter is forced at each of 17 positions (preset through a hook) in three situations and on both ways onto the slow path; every API call of every workload runs under a panic hook that attributes panics located in the crate to C13; hangs are decided by the watchdog; after the wrap 20-60 more operations per thread run and all core oracles (ledger, conservation law, histories, node invariants) must hold. TOKEN-scheduled, free-running, under ASan and (small presets) under Miri. 16 scripted full-cycle scenarios (a writer keeps a replacement for generation X while the reader's counter wraps and, preset forward, reaches X again) check that the old replacement is not accepted.",
             "fault enumeration of counter presets + panic/hang monitor + core oracles"),
 })
 
 TEXT.update({
     "C16": ("exploration", "5 C16",
-            "Cache::load (plain, mapped and cloned caches, one per thread and container) is recorded as a read in the boundary history and must linearize with the stores of other threads (never a value not stored, never older than a store whose completion precedes the call, monotone per cache); the value retained inside each cache is accounted by address in the ledger, so the conservation law at quiescent points decides 'exactly one retained reference, the previous one released'.",
-            "history linearizability with cache reads + ledger accounting of retained references"),
+            "Cache::load (plain, mapped and cloned caches, one per thread and container) is recorded as a read in the boundary history and must linearize with the stores of other threads (never a value not stored, never older than a store whose completion precedes the call, monotone per cache); the value retained inside each cache is accounted by address in the ledger, so the conservation law at quiescent points decides 'exactly one retained reference, the previous one released'. A second workload over Arc values reads caches in every way the API offers (inherent load, the Access trait on a plain Cache, generic Access bounds, MapCache, clones, caches over & and Arc) against a plain-variable model with strong-count checks, and concurrently against a writer that hands each completed store over through an atomic.",
+            "history linearizability with cache reads + ledger accounting of retained references + reference-model monitor over all cache access paths"),
 })
 
 TEXT.update({
     "C17": ("exploration", "5 C17",
-            "Every projection guard obtained through 12 chain shapes of the Access machinery is watched for its whole life: the root id it projects must not change across interleaved stores, moves and until drop; the root's drop flag must stay clear; loads are linearized against the stores; all chains must agree on a quiet container; Constant yields its own value. TOKEN-scheduled and free-running, under AddressSanitizer and Miri.",
-            "snapshot-identity monitor on projection guards + history linearizability + ASan/Miri"),
+            "Every projection guard obtained through 12 chain shapes of the Access machinery is watched for its whole life: the root id it projects must not change across interleaved stores, moves and until drop; the root's drop flag must stay clear; loads are linearized against the stores; all chains must agree on a quiet container; Constant yields its own value. TOKEN-scheduled and free-running, under AddressSanitizer and Miri; store-buffering litmus rounds under Miri include loads through a Map.",
+            "snapshot-identity monitor on projection guards + history linearizability + ASan/Miri + store-buffering litmus monitor under Miri"),
 })
 
 TEXT.update({
